@@ -216,15 +216,18 @@ fn oracle(token: &str, now: i64, static_key: &VerifyingKey, jwks: Option<&[(&str
     if (exp as i128) + (LEEWAY as i128) < now as i128 {
         return Verdict::Refuse("expired");
     }
+    // "not before its not-before time when it has one" presumes a time: an integer in u64 range.
+    // Anything else under `nbf` (null, float, negative, string, ...) is left undecided in a v0 token
+    // (v1 already refused it above as a required claim of the wrong type).
     match c.get("nbf") {
-        None | Some(Value::Null) => {}
-        Some(v) => match v.as_f64() {
-            Some(nbf) if nbf >= 0.0 => {
-                if nbf - LEEWAY as f64 > now as f64 {
+        None => {}
+        Some(v) => match as_u64_int(v) {
+            Some(nbf) => {
+                if (nbf as i128) - (LEEWAY as i128) > now as i128 {
                     return Verdict::Refuse("nbf-in-future");
                 }
             }
-            _ => return Verdict::Unspecified("nbf-present-but-not-a-time"),
+            None => return Verdict::Unspecified("nbf-present-but-not-a-time"),
         },
     }
     Verdict::Accept { exp }
@@ -802,7 +805,11 @@ fn judge(token: &str, now: i64, t0: SystemTime, o: &Verdict, real: &Real, proble
                 }
                 match &rv {
                     Ok(exp) => {
-                        let remaining = (UNIX_EPOCH + Duration::from_secs(*exp)).duration_since(t0).unwrap_or(Duration::ZERO);
+                        // exp may be any u64: never add it to a SystemTime unchecked
+                        let remaining = match UNIX_EPOCH.checked_add(Duration::from_secs(*exp)) {
+                            Some(t) => t.duration_since(t0).unwrap_or(Duration::ZERO),
+                            None => Duration::MAX,
+                        };
                         if life > remaining {
                             problems.push(("lifetime-exceeds-remaining".into(), format!("granted {life:?} > exp - now = {remaining:?}")));
                         }
@@ -814,11 +821,11 @@ fn judge(token: &str, now: i64, t0: SystemTime, o: &Verdict, real: &Real, proble
             }
             if let Ok(exp) = &rv {
                 // tokens with >= 3 s of life left must be served; tokens already past exp must not register
-                if *exp as i64 >= now + 3 && !(200..300).contains(&status) {
-                    problems.push(("valid-token-not-served".into(), format!("verify() accepts, {}s of life left, status {status}", *exp as i64 - now)));
+                if *exp as i128 >= now as i128 + 3 && !(200..300).contains(&status) {
+                    problems.push(("valid-token-not-served".into(), format!("verify() accepts, {}s of life left, status {status}", *exp as i128 - now as i128)));
                 }
-                if (*exp as i64) <= now - 3 && life.is_some() {
-                    problems.push(("registration-after-expiry".into(), format!("exp is {}s in the past (inside leeway) and a registration was granted", now - *exp as i64)));
+                if (*exp as i128) <= now as i128 - 3 && life.is_some() {
+                    problems.push(("registration-after-expiry".into(), format!("exp is {}s in the past (inside leeway) and a registration was granted", now as i128 - *exp as i128)));
                 }
             }
             Some((status, life))
@@ -1183,7 +1190,7 @@ pub fn run(args: &vpc::Args) -> ! {
         "trusted glue not executed: TCP/TLS listener, HTTP header parsing of a real connection (the Authorization header value is handed to the real router in-process)",
         "Ed25519 unforgeability is assumed: strings far from any valid token are represented only by all short strings and by mutation neighbourhoods",
         "required claims are read in the type the claims version defines (v0: pssid UUID text, exp integer, jti string; v1 additionally ver=1, iss/aud strings, nbf/iat integers, pssid base64url(0x00||uuid)); integer means a JSON integer literal",
-        "an `aud` that names nothing (number, object, empty array, array without strings, null) and an `nbf` that is not a number in a v0 token are left undecided by the property text: counted as `unspecified`, either verdict passes",
+        "an `aud` that names nothing (number, object, empty array, array without strings, null) and an `nbf` that is not an integer in u64 range (null, float, negative, string, ...) in a v0 token are left undecided by the property text: counted as `unspecified`, either verdict passes",
         "every case is built relative to a `now` read just before it; offsets keep >= 3 s distance from the 60 s leeway boundaries and a case that took > 1 s is re-run, so wall-clock progress cannot flip a verdict",
     ];
     if !jwks_note.is_empty() {
